@@ -81,9 +81,11 @@ class Prop:
         pool, futs = None, []
         if other:
             # SMT-engine jobs are independent processes' worth of work (python + z3/cvc5): run them next to the Kani jobs
-            from concurrent.futures import ThreadPoolExecutor
-            pool = ThreadPoolExecutor(max_workers=4)
-            futs = [pool.submit(j.run, logdir) for j in other]
+            # (separate processes: the interpreter is pure Python and would serialise on the GIL)
+            from concurrent.futures import ProcessPoolExecutor
+            import multiprocessing
+            pool = ProcessPoolExecutor(max_workers=min(len(other), 6), mp_context=multiprocessing.get_context("fork"))
+            futs = [pool.submit(_run_other, j, logdir) for j in other]
         if kjobs:
             raw = kanirun.run_jobs(kjobs, logdir)
             summ = [summarise_kani(r) for r in raw]
@@ -114,6 +116,10 @@ class Prop:
         if pool:
             pool.shutdown()
         return {"results": results}
+
+
+def _run_other(job, logdir):
+    return job.run(logdir)
 
 
 def replay_other(pid, art):
@@ -570,8 +576,8 @@ X_OUTSIDE = ["inputs longer than the stated lengths other than the windowed boun
 p07 = Prop("C07", "HCOBS wire format: Encoder == canonical encoding, Decoder accepts exactly the format",
            quick=[codecx.EncoderVsReference("quick"), codecx.DecoderVsReference("quick"), codecx.ApiProduction("quick")] + C07_JOBS,
            thorough=[codecx.EncoderVsReference("thorough"), codecx.DecoderVsReference("thorough"), codecx.ApiProduction("thorough")] + C07_JOBS,
-           bounds_quick="Engine X: EncoderState == reference for every byte string of length <= 6, every 2-piece cut (3 pieces for L 4-5), copy/borrow inputs, limits (1,1),(1,2),(2,3); DecoderState == reference for every byte string <= 5 at (2,3),(1,2) and production limits; public Encoder/Decoder at production limits for every string <= 4 and windowed inputs crossing the 252 and 252+64008 boundaries. Engine K: production constants, header arithmetic for all 64009 chunk sizes, find_stuff_sequence for all strings <= 40 bytes",
-           bounds_thorough="Engine X lengths <= 8 (encoder, + limits (3,5), all four method pairs, 3 pieces for L 4-7) and <= 7 (decoder, + (1,1),(3,5)); more boundary windows and cuts; Engine K as quick",
+           bounds_quick="Engine X: EncoderState == reference for every byte string of length <= 7, every 2-piece cut (3 pieces for L 4-5), copy/borrow inputs, limits (1,1),(1,2),(2,3),(3,5); DecoderState == reference for every byte string <= 6 at (2,3),(1,2) and production limits; public Encoder/Decoder at production limits for every string <= 4 and windowed inputs crossing the 252 and 252+64008 boundaries. Engine K: production constants, header arithmetic for all 64009 chunk sizes, find_stuff_sequence for all strings <= 40 bytes",
+           bounds_thorough="Engine X lengths <= 9 (encoder, + limits (2,2),(4,7), all four method pairs up to 8, 3 pieces for L 4-7) and <= 7 (decoder, + (1,1),(3,5), all method pairs); more boundary windows and cuts; Engine K as quick",
            outside=X_OUTSIDE, assumptions=X_ASSUME + ["hook H4 (hcobs::verif_hooks::encode_header) exposes the private header kernel to Kani; hook H2 shrinks arena chunks to 8 bytes there; the limit hook H1 is OFF in every build used by this check (Engine X passes tiny limits as the Parameters argument of the internal state machines and reads PROD_PARAMS from the MIR for the public API)"],
            trusted=X_TRUST)
 p07.technique = "symbolic execution of the compiler's MIR for the encoder/decoder state machines with symbolic input bytes, differential SMT queries (z3 + cvc5) against a reference codec; bounded model checking (Kani/CBMC) of the header kernel, constants and find_stuff_sequence"
@@ -581,8 +587,8 @@ C02_K = [C07_JOBS[3], C07_JOBS[1], C07_JOBS[0]]
 p02 = Prop("C02", "encoder output stuff-free, split-independent, bounded",
            quick=[codecx.EncoderVsReference("quick"), codecx.ApiProduction("quick", pid="C02", name="c02::public_api_production_limits[mirx]"), smtengine.C02LengthLemma()] + C02_K,
            thorough=[codecx.EncoderVsReference("thorough"), codecx.ApiProduction("thorough", pid="C02", name="c02::public_api_production_limits[mirx]"), smtengine.C02LengthLemma()] + C02_K,
-           bounds_quick="every encoder output path of Engine X (lengths <= 6, all cuts, copy/borrow, three tiny limit pairs; public API at production limits incl. boundary windows): no adjacent FE FD in the output, output identical to the single reference encoding whatever the cut and input method (split independence), length <= len + 1 + 2*ceil(len/64008) at production limits; SMT lemma: the canonical encoding's length bound for ALL lengths < 2^40; Kani: find_stuff_sequence, header digits < 0xFD, production constants",
-           bounds_thorough="lengths <= 8, all method pairs, (3,5) limits, more windows",
+           bounds_quick="every encoder output path of Engine X (lengths <= 7, all cuts, copy/borrow, four tiny limit pairs; public API at production limits incl. boundary windows): no adjacent FE FD in the output, output identical to the single reference encoding whatever the cut and input method (split independence), length <= len + 1 + 2*ceil(len/64008) at production limits; SMT lemma: the canonical encoding's length bound for ALL lengths < 2^40; Kani: find_stuff_sequence, header digits < 0xFD, production constants",
+           bounds_thorough="lengths <= 9, all method pairs, six tiny limit pairs, more windows",
            outside=X_OUTSIDE + ["the size bound for long inputs rests on: implementation == canonical encoding (decided up to the stated lengths and at the boundary windows) + the arithmetic lemma on the canonical encoding (all lengths)"],
            assumptions=X_ASSUME, trusted=X_TRUST)
 p02.technique = p07.technique
@@ -619,8 +625,8 @@ p09 = Prop("C09", "incremental drain: bounded lag for the Encoder, none for the 
                   iov_job("k8q_consume_clamped_to_stable_prefix")],
            thorough=[codecx.EncoderVsReference("thorough"), codecx.DecoderVsReference("thorough"), codecx.ApiProduction("thorough", pid="C09", name="c09::public_api_production_limits[mirx]"),
                      iov_job("k8q_consume_clamped_to_stable_prefix", 3000, 24), iov_job("k8_overasking_consumers_with_pending", 3000, 24)],
-           bounds_quick="on every feasible encoder path of Engine X (lengths <= 6, all cuts; production limits with inputs longer than 252+64008): at most one placeholder pending at any time and at most max_chunk+2 bytes appended behind it (so everything older is consumable), every placeholder is backfilled by finish; decoder paths register no placeholder at all; Kani: ConsumingIovec::consume never crosses the earliest pending placeholder even when over-asked",
-           bounds_thorough="lengths <= 8; two consume skeletons",
+           bounds_quick="on every feasible encoder path of Engine X (lengths <= 7, all cuts; production limits with inputs longer than 252+64008): at most one placeholder pending at any time and at most max_chunk+2 bytes appended behind it (so everything older is consumable), every placeholder is backfilled by finish; decoder paths register no placeholder at all; Kani: ConsumingIovec::consume never crosses the earliest pending placeholder even when over-asked",
+           bounds_thorough="lengths <= 9; two consume skeletons",
            outside=X_OUTSIDE + ["the drained bytes themselves: that what a consumer takes out of OwningIovec is a prefix of the final flatten() is C03/C04 (consume decided; ConsumingIovec::advance_slices and Read::read did NOT finish in Kani and are not decided), so a defect confined to advance_slices is not detected here",
                                 "arena-chunk granularity of the lag (one slice may stay pinned behind a placeholder that shares it)"],
            assumptions=X_ASSUME + IOV_ASSUME, trusted=X_TRUST)
